@@ -814,5 +814,9 @@ package core
 //@   modifies allbut(F:core.IndexedState.|F:core.TermIndex.|MD:string:map[string]struct{}|MV:string:map[string]struct{}|ML:string:map[string]struct{}|MD:string:struct{}|MV:string:struct{}|ML:string:struct{}|LK:)
 //@ func (*IndexedState).add
 //@   ensures[C02.ix_rejected_add_keeps_index] result1 != nil ==> forall(t, string, forall(j, string, old(hasEntry(s.FactIndex, t, j)) ==> hasEntry(s.FactIndex, t, j)))
+//@ ghost addRejected bool gate
+//@ func (*IndexedState).add
+//@   ghost-ensures addRejected == (result1 != nil)
+//@   also-modifies addRejected
 //@ func (*IndexedState).Add
-//@   ensures[C02.ix_rejected_Add_keeps_index] result1 != nil ==> forall(t, string, forall(j, string, old(hasEntry(s.FactIndex, t, j)) ==> hasEntry(s.FactIndex, t, j)))
+//@   ensures[C02.ix_rejected_Add_keeps_index] addRejected ==> forall(t, string, forall(j, string, old(hasEntry(s.FactIndex, t, j)) ==> hasEntry(s.FactIndex, t, j)))
